@@ -11,6 +11,15 @@ const ruleEnum = "one evaluation = one simulated run. For every sampled history 
 	"injection points of each sampled history (capped, see counters enum.truncated), histories are sampled. A sub-run is non-trivial by construction (its fault " +
 	"fires); distinct_nontrivial counts distinct (baseline schedule signature, mode, k)."
 
+const ruleRace = "one evaluation = one seeded simulated run of a -race build with every public entry point of the property text mixed on shared instances. " +
+	"Non-trivial = at least one contested scheduling decision. distinct_nontrivial = distinct schedule signatures. A run fails when the Go race detector " +
+	"reports a pair of accesses with at least one frame inside tkestack.io/galaxy/{pkg,cni}; the finding signature is the pair of innermost galaxy frames."
+
+const ruleHostile = "one evaluation = one seeded simulated run in which hostile inputs (pod objects with arbitrary annotations / requested ranges / owner " +
+	"references / names / phases, HTTP bodies and queries on every route, configuration texts; drawn from catalogues plus seeded combination) are mixed into an " +
+	"ordinary workload. Verdicts: a task panics inside galaxy code, a task never reaches a scheduling point again (wall-clock watchdog), a task ends holding a " +
+	"lock, or a follow-up ordinary operation can never complete. Non-trivial = at least one hostile input was delivered; distinct = distinct schedule+input signatures."
+
 var assumeW1 = []string{
 	"kube-apiserver/etcd, informers/listers, kube-scheduler, workload controllers and kubelet are simulated (simkube); galaxy-ipam code (floatingip, schedulerplugin, ipam/api) runs unmodified except at the rewritten seams (sync, time, wait, keymutex, klog, map iteration, go statements, the one select)",
 	"the simulated API server is linearizable; listers read a lagging view fed by per-kind FIFO event queues; one handler per informer at a time",
@@ -28,6 +37,11 @@ func init() {
 	for _, p := range []string{"C05", "C08"} {
 		specs[p] = propSpec{World: "ipam", Level: "fault_enumeration", Quick: 25, Thorough: 600, Rule: ruleEnum, Assume: assumeW1}
 	}
+	specs["C18"] = propSpec{World: "ipam", Level: "exploration", Quick: 25, Thorough: 600, HangIsVerdict: true, Rule: ruleHostile, Assume: assumeW1}
+	specs["C19"] = propSpec{World: "ipam", Race: true, Level: "exploration", Quick: 30, Thorough: 900, Rule: ruleRace, Assume: append([]string{
+		"the scheduler's hand-offs are wrapped in runtime.RaceDisable/RaceEnable and all harness<->task data crosses as bytes copied by //go:norace code, so the race detector's happens-before graph contains only galaxy's own synchronisation (plus goroutine creation and the completion of process initialisation)",
+		"klog is replaced by a lock-free logger (klog's global mutex would order every two tasks that log)",
+		"a race is reported only when the two accesses are unordered in an explored schedule: sampling"}, assumeW1...)}
 	realVsStub["ipam"] = map[string]string{
 		"real": "pkg/ipam/floatingip (crdIpam, store, pool config), pkg/ipam/schedulerplugin (Filter, Bind, unbind, Release, resync, event loop, Run/Init periodic loops, policies, crdKey), pkg/ipam/api (restful handlers on an in-process container), pkg/api/k8s/eventhandler, pkg/utils/{nets,page,httputil}, pkg/api/galaxy/constant",
 		"stub": "kube-apiserver/etcd, informers and listers, kube-scheduler, workload controllers, kubelet (simkube + world); crd.CrdCache (dynamic informer) behind its interface; cloud provider behind cloudprovider.CloudProvider; klog -> simlog",
